@@ -139,7 +139,8 @@ class Build:
             when = c.obj("liquid.builtin.tags.case_tag:MultiExpressionBlockNode", name + "_when", block=self.block(name + "_when_body"), expression=self.expr(name + "_when_test"), token=NONE, blank=c.bool(self.fresh(name + "_when_blank")))
             return [("0", c.st.alloc(HList(items=[]))), ("2", c.st.alloc(HList(items=[when, self.block(name + "_else")])))]
         if a == "dict[str,KeywordArgument]":
-            return [("0", c.st.alloc(HDict(items={}))), ("1", c.st.alloc(HDict(items={"count": self.kwarg(name + "_count")})))]
+            # the translate tag's arguments: none, or a count and a message context
+            return [("0", c.st.alloc(HDict(items={}))), ("2", c.st.alloc(HDict(items={"count": self.kwarg(name + "_count"), "context": self.kwarg(name + "_context")})))]
         if a == "MessageBlock":
             return [("m", c.obj("liquid.extra.tags.translate_tag:MessageBlock", name, text=c.str(self.fresh(name + "_text")), vars=c.st.alloc(HList(items=[])), token=NONE, block=self.block(name + "_b")))]
         if a == "Optional[MessageBlock]":
@@ -220,6 +221,25 @@ def node_escape_contract(m, cname, sfx, prop="C02"):
         c.summary(CTX + ".copy", lambda eng, st, a, k: outcomes(st, lambda s: ctx, ("ContextDepthError",)))
         # conversions that have their own raises contract in C02.py are summarised by it
         c.summary("liquid.builtin.tags.tablerow_tag:TablerowNode._int_or_zero", lambda eng, st, a, k: [(st, VInt(z3.Int(f"cols_{len(st.log)}")))])
+        if cname == "TranslateNode":
+            # the translations object (render data or the class default) is an arbitrary catalogue:
+            # its gettext methods return some wellformed printf format (assumption, stated)
+            tmod = load.get_module(m)
+            stubs = {}
+            for gname in ("gettext", "pgettext", "ngettext", "npgettext"):
+                stubs[gname] = VFunc(ast.parse(f"def catalogue_{gname}(*a): pass").body[0], tmod, None, f"catalogue_{gname}", None)
+
+                def message(eng, st, a, k, gname=gname):
+                    t = z3.String(f"message_{gname}_{len(st.log)}")
+                    st.assume(z3.Function("printf_wellformed", S, B)(t))
+                    st.log.append(("catalogue", gname))
+                    return [(st, VStr(t))]
+                c.summary(f"{m}:catalogue_{gname}", message)
+            catalogue = c.obj("gettext:NullTranslations", "translations", **stubs)
+            c.summary(f"{m}:TranslateNode.resolve_translations", lambda eng, st, a, k: outcomes(st, lambda s: catalogue, ("LiquidTypeError",)))
+            # message variables are arbitrary values of the scope: to_liquid_string by its own contract
+            c.summary("liquid.stringify:to_liquid_string", lambda eng, st, a, k: outcomes(st, lambda s: VStr(z3.String(f"liquid_string_{len(st.log)}")), ("LiquidValueError",)))
+            c.assume_note("the message catalogue returns wellformed printf formats (literal text, %%, %(name)s); resolve_translations returns a catalogue or raises LiquidTypeError (bounded check: translations=5)")
         buf = c.obj("io:StringIO", "buffer", __text__=c.str("out"))
 
         def entry(eng, cc, func):
@@ -272,7 +292,6 @@ NOT_REACHED = {
     ("liquid.extra.tags.extends_tag", "BlockNode"): "block stacks in tag_namespace['extends'] (C18 has its contracts)",
     ("liquid.extra.tags.extends_tag", "ExtendsNode"): "builds the block stacks of the whole inheritance chain (set(), nested closures)",
     ("liquid.extra.tags.macro_tag", "CallNode"): "binds arguments through macro_args (C27/C15 have its contracts)",
-    ("liquid.extra.tags.translate_tag", "TranslateNode"): "class-level NullTranslations instance (C26 has its contracts)",
 }
 
 
